@@ -227,6 +227,14 @@ c13_asan_cb(const char *report) {
 		strcpy(rw, "WRITE");
 	else if (NULL != strstr(report, "READ of size"))
 		strcpy(rw, "READ");
+	/* What ASan calls an access behind an exact-size heap copy depends on what happens to lie
+	 * there (redzone: heap-buffer-overflow, a quarantined chunk: heap-use-after-free, the rest of a
+	 * partially addressable granule: unknown-crash, our poisoned byte of a 0-size message:
+	 * use-after-poison).  It is the same event - an access outside the message - and must carry the
+	 * same clause in the sharded run and in the single-case replay, so these four are folded. */
+	if (0 == strcmp(kind, "heap-use-after-free") || 0 == strcmp(kind, "unknown-crash") ||
+	    0 == strcmp(kind, "use-after-poison"))
+		strcpy(kind, "heap-buffer-overflow");
 	snprintf(clause, sizeof(clause), "asan:%s:%s", kind, rw);
 	vh_fail(clause, "AddressSanitizer report");
 	if (++ c13_reports > C13_REPORT_CAP && 0 == c13_abandon) {
